@@ -69,6 +69,9 @@ def concrete(mf: dict, fr: str, scale: int = 1) -> list[dict]:
         return [{"k": "eof" if fr == "tcp" else "pclose", "d": d}]
     if k == "err":
         return [{"k": "err", "d": d, "err": x}]
+    if k == "serr":
+        # the send itself fails: reported inside sendto() on datagram sockets, as a later connection error on streams
+        return [{"k": "serr", "err": x}] if fr != "tcp" else [{"k": "err", "d": d, "err": x}]
     raise ValueError(k)
 
 
@@ -296,7 +299,8 @@ def fam_lifecycle(tier: str, rnd: random.Random, limit: int) -> list[dict]:
     out = []
     al = [{"k": "ans", "d": 1}, {"k": "drop"}, {"k": "garbage", "d": 1}, {"k": "exc", "code": 2, "d": 1},
           {"k": "pclose", "d": 1}, {"k": "err", "d": 1, "err": errno.ENETUNREACH},
-          {"k": "anseof", "d": 1, "d2": 2}, {"k": "ansclose", "d": 1, "d2": 2}, {"k": "eof", "d": 1}]
+          {"k": "anseof", "d": 1, "d2": 2}, {"k": "ansclose", "d": 1, "d2": 2}, {"k": "eof", "d": 1},
+          {"k": "serr", "d": 1, "err": errno.ENETUNREACH}]
     between = ["none", "close", "loop", "close+loop", "sleep", "loop+close"]
     nreq = 3 if tier == "quick" else 4
     for kind in ("udp", "tcp"):
